@@ -84,12 +84,13 @@ func opCtx(step int, ops []Op) string {
 // stack.Stack
 
 type stackRun struct {
-	c      SeqCase
-	s      *stack.Stack[int]
-	ref    []int // bottom first
-	serial int
-	step   int
-	sub    int
+	keptSlice, keptCopy []int // an earlier Slice() result and a private copy of it
+	c                   SeqCase
+	s                   *stack.Stack[int]
+	ref                 []int // bottom first
+	serial              int
+	step                int
+	sub                 int
 
 	maxDepth    int
 	popThenPush int // a Push/Add after a Pop that left the stack non-empty
@@ -153,6 +154,16 @@ func (r *stackRun) check() string {
 	}
 	if !eqInts(sl, want) {
 		return r.errf("Slice = %s, reference (newest first) %s", brief(sl), brief(want))
+	}
+	if r.keptSlice != nil && !eqInts(r.keptSlice, r.keptCopy) {
+		return r.errf("a slice returned by an earlier Slice() call changed afterwards: now %s, was %s", brief(r.keptSlice), brief(r.keptCopy))
+	}
+	if n > 0 && (r.keptSlice == nil || n%3 == 0) {
+		r.keptSlice = r.s.Slice()
+		r.keptCopy = append([]int(nil), r.keptSlice...)
+	}
+	for i := range sl { // Slice is a copy: scribbling on it must not reach the stack
+		sl[i] = -777
 	}
 	var got []int
 	r.s.Each(func(v int) bool { got = append(got, v); return len(got) < n+8 })
